@@ -360,6 +360,8 @@ def tasksOf (O : Oracle) (typ : JVal) (tasks : JVal) : Res (List (Key × JVal)) 
 def workflowBody (O : Oracle) (kvs : List (Key × JVal)) : Res JVal :=
   -- WorkflowSpec.validate_schema after the schema
   (guardDef (truthy (getD kvs "tasks" .null)) "Workflow doesn't have any tasks").bind fun _ =>
+  (guardDef (match getD kvs "tasks" .null with | .obj tkvs => tasksNameCheck tkvs | _ => true)
+    "A task can't be named 'version'").bind fun _ =>
   (checkExpr O (getD kvs "output" (.obj []))).bind fun _ =>
   (checkExpr O (getD kvs "vars" (.obj []))).bind fun _ =>
   -- WorkflowSpec.__init__
